@@ -16,6 +16,12 @@ def numStep (hn : Bool) (d : Int) (isNum : Prop) [Decidable isNum] (st : MState)
     else ({ st with idx := st.idx + 1 }, none)
   else (st, none)
 
+/-- store the parsed suffix of a matched numeric keyword -/
+def applyNum (hn : Bool) (st : MState) (numPtr : Option Nat) (v : Option Int) : MState :=
+  match numPtr, v with
+  | some i, some x => setNum st hn i x
+  | _, _ => st
+
 /-- what the loop does after a keyword matched (state already advanced) -/
 def afterMatch (p c : Bytes) (hn : Bool) (d : Int) (rec : MState → Bool × MState) (st : MState) : Bool × MState :=
   if st.pl == 0 ∧ st.cl == 0 then (true, st)
@@ -51,9 +57,7 @@ theorem mainLoop_succ (p c : Bytes) (hn : Bool) (d : Int) (fuel : Nat) (st : MSt
       let sn := numStep hn d (psp > 0 ∧ rd p (st.pp + psp - 1) == 35) st
       let mv := matchPattern p sn.1.pp psp c sn.1.cp csp sn.2.isSome
       if mv.1 then
-        let st1 : MState := match sn.2, mv.2 with
-          | some i, some x => setNum sn.1 hn i x
-          | _, _ => sn.1
+        let st1 : MState := applyNum hn sn.1 sn.2 mv.2
         afterMatch p c hn d (mainLoop p c hn d fuel)
           { st1 with pp := st1.pp + psp, pl := st1.pl - psp, cp := st1.cp + csp, cl := st1.cl - csp }
       else afterNoMatch p (mainLoop p c hn d fuel) { sn.1 with pp := sn.1.pp + psp, pl := sn.1.pl - psp } := by
